@@ -136,6 +136,18 @@ func (df *DataFrame) DropDuplicates(options ...DropDuplicatesOption) (*DataFrame
 		colNames = df.ColumnNames()
 	}
 
+	// reject invalid options before anything is computed or modified
+	switch finalOptions.Keep {
+	case "first", "last", "none":
+	default:
+		return nil, fmt.Errorf("invalid Keep option: %s (must be 'first', 'last' or 'none')", finalOptions.Keep)
+	}
+	for _, name := range colNames {
+		if _, ok := df.Columns[name]; !ok {
+			return nil, fmt.Errorf("Column %s not found", name)
+		}
+	}
+
 	// find which indexes in a column to keep (which rows to keep), prob create another helper function to do this
 	seen := make(map[string]bool)
 	indexesToKeep := []int{}
